@@ -255,3 +255,51 @@ CONTRACTS["excel:TimeDependentConnections._write_pop_matrix#entry_on_a_diagonal_
 CONTRACTS["excel:TimeDependentConnections._write_pop_matrix#interaction_with_a_diagonal"] = dict(
     schema=schema, make_env=_env_matrix([("a", "a"), ("b", "a")], enable_diagonal=True), call_stubs=_mx_stubs, stubs={"self.ts": "ENTRIES"},
     ensures=[("C16.with_a_diagonal_every_pair_is_y_or_n", "worksheet.CELLS[11, 1] == 'Y' and worksheet.CELLS[11, 2] == 'N' and worksheet.CELLS[12, 1] == 'Y' and worksheet.CELLS[12, 2] == 'N'")], defined_props=["C16"])
+
+
+# ---- TimeDependentConnections.__init__ (C16 / C18): a transfer has no diagonal and may be entered as a number, a rate or a duration (per year); an interaction has a diagonal and
+# no units; any other kind of table is refused; the optional write settings start undecided (None: decided from the data when writing), the assumption column is headed `Constant`
+def _env_tdc_init(kind):
+    def make(it):
+        from pyvc.interp import PyObjV
+        from pyvc import source
+
+        return {"self": PyObjV("TimeDependentConnections", source.load("excel"), {}), "code_name": "age", "full_name": "Ageing", "tvec": "TVEC", "from_pops": ["a", "b"], "to_pops": ["a"], "interpop_type": kind,
+                "ts": None, "from_pop_type": "hum", "to_pop_type": "vec"}
+
+    return make
+
+
+_init_common = ("self.code_name == 'age' and self.full_name == 'Ageing' and self.from_pops == ['a', 'b'] and self.to_pops == ['a'] and self.from_pop_type == 'hum' and self.to_pop_type == 'vec' and self.tvec == 'TVEC' and len(self.ts) == 0 "
+                "and self.write_units is None and self.write_uncertainty is None and self.write_assumption is None and self.assumption_heading == 'Constant' and self.ts_attributes == {'Provenance': {}}")
+_fd = {"format_duration": (lambda it, t, pluralize=False: "years" if pluralize else "year"), "sc.odict": (lambda it: {})}
+CONTRACTS["excel:TimeDependentConnections.__init__#transfer"] = dict(
+    schema=schema, make_env=_env_tdc_init("transfer"), call_stubs=_fd,
+    ensures=[("C16+C18.a_transfer_has_no_diagonal_and_number_rate_or_duration_units", "self.type == 'transfer' and self.enable_diagonal is False and self.allowed_units == ['Number (years)', 'Rate (per year)', 'Duration (years)']"),
+             ("C16.the_table_starts_empty_with_undecided_write_settings", _init_common)], defined_props=["C16", "C18"])
+CONTRACTS["excel:TimeDependentConnections.__init__#interaction"] = dict(
+    schema=schema, make_env=_env_tdc_init("interaction"), call_stubs=_fd,
+    ensures=[("C16+C18.an_interaction_has_a_diagonal_and_no_units", "self.type == 'interaction' and self.enable_diagonal is True and self.allowed_units == ['N.A.']"),
+             ("C16.the_table_starts_empty_with_undecided_write_settings", _init_common)], defined_props=["C16", "C18"])
+CONTRACTS["excel:TimeDependentConnections.__init__#unknown_kind"] = dict(
+    schema=schema, make_env=_env_tdc_init("migration"), call_stubs=_fd, raises={"Exception": "True"}, raises_props=["C16", "C18"], ensures=[], defined_props=["C16", "C18"])
+
+
+# ---- TimeDependentValuesEntry.__init__ (C16): a new table is empty unless series are given, has no years unless given, keeps its name, comment and population type, capitalises
+# standard units in the list of allowed units (others as given, None = no restriction) and starts with undecided write settings and the `Constant` heading
+def _env_tdve_init(units, tvec="TVEC"):
+    def make(it):
+        from pyvc.interp import PyObjV
+        from pyvc import source
+
+        return {"self": PyObjV("TimeDependentValuesEntry", source.load("excel"), {}), "name": "Quantity", "tvec": tvec, "ts": None, "allowed_units": units, "comment": "a note", "pop_type": "hum"}
+
+    return make
+
+
+_tdve_common = "self.name == 'Quantity' and self.comment == 'a note' and self.pop_type == 'hum' and len(self.ts) == 0 and self.ts_attributes == {'Provenance': {}} and self.assumption_heading == 'Constant' and self.write_units is None and self.write_uncertainty is None and self.write_assumption is None"
+for _tag, _units, _tv, _want_units, _want_tv in (("standard_and_other_units", ["probability", "$/person"], "TVEC", "['Probability', '$/person']", "'TVEC'"), ("no_restriction_and_no_years", None, None, "None", "[]")):
+    CONTRACTS["excel:TimeDependentValuesEntry.__init__#%s" % _tag] = dict(
+        schema=schema, make_env=_env_tdve_init(_units, _tv), call_stubs={"sc.odict": (lambda it: {})},
+        ensures=[("C16.a_new_table_is_empty_and_keeps_what_it_was_given", _tdve_common + " and self.tvec == %s" % _want_tv),
+                 ("C16.standard_units_are_capitalised_in_the_allowed_units", "self.allowed_units == %s" % _want_units)], defined_props=["C16"])
